@@ -31,6 +31,10 @@ pub struct Case {
     pub spec: ChainSpec,
     pub dens: DensSpec,
     pub init: Vec<f64>,
+    /// momentum_decoherence_length = infinity (documented: no momentum refresh) with one step per draw; kept as a flag
+    /// because JSON cannot carry the value
+    #[serde(default)]
+    pub no_refresh: bool,
 }
 
 struct Draw {
@@ -128,9 +132,15 @@ fn norm(v: &[f64]) -> f64 {
 
 pub fn check_case(c: &Case) -> Outcome {
     let mut o = Outcome::pass();
-    let spec = &c.spec;
+    let mut spec_owned = c.spec.clone();
+    if c.no_refresh {
+        spec_owned.decoherence = f64::INFINITY;
+        spec_owned.subsample_frequency = 0.0;
+    }
+    let spec = &spec_owned;
     let d = c.dens.dim();
     o.label(format!("preset:{}", spec.preset.name()));
+    o.label_if(c.no_refresh, "no-momentum-refresh");
     o.label(format!("traj:{:?}", spec.traj_kind));
     {
         let mut g = vec![0.0; d];
@@ -357,7 +367,7 @@ impl Part for Mclmc {
         "mclmc-histories"
     }
     fn rule(&self) -> String {
-        "three MCLMC presets, dim 2..40, step size in [0.05,1], decoherence length in [0.1,50], subsample_frequency in [0,2], three trajectory \
+        "three MCLMC presets, dim 2..40, step size in [0.05,1], decoherence length in [0.1,50] or (one case in eight) infinite with one step per draw, subsample_frequency in [0,2], three trajectory \
          kinds, switch fraction in [0,1], dynamic step size on/off, jitter None/Some, max_energy_error in [1,1e4], smooth and wall densities, \
          num_tune 10..60 + 10 draws; non-trivial = history with a divergence (and a retry when dynamic); distinct by (preset, kind, dim, dynamic, switch)"
             .into()
@@ -398,7 +408,8 @@ impl Part for Mclmc {
                 if preset == Preset::FlowMclmc {
                     spec.method = StepSizeAdaptMethod::Fixed(step);
                 }
-                Case { spec, dens, init }
+                let no_refresh = seed % 8 == 0;
+                Case { spec, dens, init, no_refresh }
             })
             .boxed()
     }
